@@ -6,6 +6,7 @@ import (
 	"os"
 	"os/exec"
 	"path/filepath"
+	"regexp"
 	"strings"
 	"time"
 
@@ -15,13 +16,13 @@ import (
 // C18 — evy fmt never damages a source file and --check tells the truth.
 
 type c18File struct {
-	name     string
-	content  string
-	mode     os.FileMode
-	parses   bool
-	symlink  bool
-	txtar    bool
-	roDir    bool
+	name      string
+	content   string
+	mode      os.FileMode
+	parses    bool
+	symlink   bool
+	txtar     bool
+	roDir     bool
 	formatted string // filled in by the clean run
 }
 
@@ -40,6 +41,7 @@ func c18Files() []c18File {
 		{name: "big.evy", content: big.String(), mode: 0o644, parses: true},
 		{name: "link.evy", content: "y:=2\nprint   y\n", mode: 0o644, parses: true, symlink: true},
 		{name: "members.txtar", content: "comment\n-- a.evy --\nx:=1\nprint   x\n-- notes.txt --\nkeep   this\n-- b.evy --\nprint   2\n", mode: 0o640, parses: true, txtar: true},
+		{name: "growing-members.txtar", content: "three members, the first two grow when formatted\n-- a.evy --\nif true\nif true\nif true\nprint 1\nprint 11\nprint 111\nend\nend\nend\n-- b.evy --\nfor i:=range 3\nwhile i<2\nprint   2 i\nbreak\nend\nend\n-- c.evy --\nprint 3\n-- d.txt --\nlast   member\n", mode: 0o644, parses: true, txtar: true},
 		{name: "bad-member.txtar", content: "-- a.evy --\nx:=1\nprint   x\n-- b.evy --\nprint (\n", mode: 0o644, parses: false, txtar: true},
 		// permission bits that a umask would filter; CR is an illegal character: CRLF files do not parse
 		{name: "group-write.evy", content: "g:=1\nprint   g\n", mode: 0o664, parses: true},
@@ -141,29 +143,29 @@ func init() {
 	core.Register(&core.Check{
 		ID:    "C18",
 		Level: "fault_enumeration",
-		Rule: "the real evy binary built from the current tree runs `fmt -w` on source files of several shapes (needing changes, already formatted, executable bit, unparsable, empty, read-only, 1 MiB, reached through a symlink, txtar with several members, txtar with an unparsable member, modes 0664/0666/0775/0606, CRLF and CR line endings, missing final newline, trailing blank) under strace -f: a clean traced run, then one run per kill point (every syscall kind of the process x occurrence index: SIGKILL on entering that call) and per injected fault (file-related syscalls x occurrence x errno, short writes); after every run the bytes and mode of the file, the directory listing, exit status and stderr are judged; `fmt -c` on every shape (file and stdin). distinct = distinct (file shape, injection) pairs whose injection actually fired (strace log)",
+		Rule:  "the real evy binary built from the current tree runs `fmt -w` on source files of several shapes (needing changes, already formatted, executable bit, unparsable, empty, read-only, 1 MiB, reached through a symlink, txtar with several members, txtar with an unparsable member, modes 0664/0666/0775/0606, CRLF and CR line endings, missing final newline, trailing blank) under strace -f: a clean traced run, then one run per kill point (every syscall kind of the process x occurrence index: SIGKILL on entering that call) and per injected fault (file-related syscalls x occurrence x errno, short writes); after every run the bytes and mode of the file, the directory listing, exit status and stderr are judged; `fmt -c` on every shape (file and stdin). distinct = distinct (file shape, injection) pairs whose injection actually fired (strace log)",
 		Assumptions: []string{
 			"closed-form oracle: file bytes in {original, formatted}; mode unchanged; exit 0 implies the file holds the formatted text; unparsable input: file untouched and exit != 0",
 			"durability across power loss (no fsync before rename) is outside the property's quantifier and not claimed; leftover temporary files after a failed write are reported in the evidence but are not violations",
 			"an injection that never matched (strace log has no (INJECTED) marker / no kill) is counted separately and is no evidence",
 		},
-		NeedsEvy:  true,
-		NumCases:  func(tier string) int { return len(c18Cases(tier)) },
+		NeedsEvy:   true,
+		NumCases:   func(tier string) int { return len(c18Cases(tier)) },
 		Exhaustive: func(tier string) bool { return tier == "thorough" },
-		Run:       c18Run,
-		MinEvents: []string{"traced_runs", "injections_fired", "kill_points_fired", "faults_fired", "check_runs"},
+		Run:        c18Run,
+		MinEvents:  []string{"traced_runs", "injections_fired", "kill_points_fired", "faults_fired", "check_runs"},
 	})
 }
 
 type c18Result struct {
-	exit     int
-	stderr   string
-	content  string
-	mode     os.FileMode
-	listing  []string
+	exit      int
+	stderr    string
+	content   string
+	mode      os.FileMode
+	listing   []string
 	straceLog string
-	killed   bool
-	injected bool
+	killed    bool
+	injected  bool
 }
 
 func c18Prepare(c *core.Ctx, f c18File, dir string) (path string, err error) {
@@ -358,6 +360,11 @@ func c18Formatted(c *core.Ctx, f c18File) (string, int) {
 		return f.content, 1
 	}
 	if f.txtar {
+		// expected archive computed member by member through `evy fmt` on stdin, independently of the
+		// archive code path of the binary
+		if want, ok := c18TxtarExpected(c, f.content); ok {
+			return want, 0
+		}
 		d := filepath.Join(c.Tmp, "c18fmt")
 		_ = os.RemoveAll(d)
 		_ = os.MkdirAll(d, 0o755)
@@ -446,4 +453,48 @@ func c18Check(c *core.Ctx, f c18File, dir, path, formatted, desc string) {
 			}
 		}
 	}
+}
+
+var txtarMarkerRe = regexp.MustCompile(`^-- (.+) --$`)
+
+// c18TxtarExpected splits a txtar archive at its marker lines, formats every .evy member through
+// `evy fmt` on stdin and puts the archive together again (a member that is not empty ends with a newline).
+func c18TxtarExpected(c *core.Ctx, content string) (string, bool) {
+	type member struct{ name, data string }
+	var comment strings.Builder
+	var ms []member
+	for _, line := range strings.SplitAfter(content, "\n") {
+		if line == "" {
+			continue
+		}
+		if m := txtarMarkerRe.FindStringSubmatch(strings.TrimSuffix(line, "\n")); m != nil && strings.TrimSpace(m[1]) != "" {
+			ms = append(ms, member{name: strings.TrimSpace(m[1])})
+			continue
+		}
+		if len(ms) == 0 {
+			comment.WriteString(line)
+		} else {
+			ms[len(ms)-1].data += line
+		}
+	}
+	fixNL := func(t string) string {
+		if t != "" && !strings.HasSuffix(t, "\n") {
+			return t + "\n"
+		}
+		return t
+	}
+	var out strings.Builder
+	out.WriteString(fixNL(comment.String()))
+	for _, m := range ms {
+		data := m.data
+		if strings.HasSuffix(m.name, ".evy") {
+			formatted, _, code, err := evyCmd(c, data, "fmt")
+			if err != nil || code != 0 {
+				return "", false
+			}
+			data = formatted
+		}
+		out.WriteString("-- " + m.name + " --\n" + fixNL(data))
+	}
+	return out.String(), true
 }
